@@ -15,6 +15,8 @@
                              the pages handed out / released match the live-set difference
                  written     every page the mirror's commit writes is on disk with exactly the
                              encoder's bytes (defined prefix)
+                 inplace     no page the mirror's commit writes is a portion page of the old list
+                             (a write onto the previous image would violate C17)
                  sets        order-independent: tracked' within tracked + released + fresh,
                              tracked and live pages stay tracked or live, bump monotone
                  reencode    encoding the decoded free list reproduces the bytes of its portion pages
@@ -47,6 +49,7 @@ let tcode_name (c : FreeList.tcode) : string =
   | FreeList.TBump -> "TBump" | FreeList.TAllocSet -> "TAllocSet" | FreeList.TFreedSet -> "TFreedSet"
   | FreeList.TFreedDup -> "TFreedDup" | FreeList.TWritten -> "TWritten"
   | FreeList.TReencode -> "TReencode" | FreeList.TAllocPanic -> "TAllocPanic"
+  | FreeList.TInPlace -> "TInPlace"
 
 let line (store : string) (check : string) (v : FreeList.tverdict) (extra : string) : string =
   match v with
@@ -59,8 +62,9 @@ let check_side (store : string) (rd : coq_N -> coq_N list option) (a : side) (b 
   let t = FreeList.fl_transition cap a.fl a.bump a.live b.fl b.bump b.live in
   let extra =
     Printf.sprintf " frag=%d inplace=%d allocs=%d freed=%d written=%d portions=%d items=%d"
-      (if (FreeList.fl_read cap b.fl).FreeList.fl_frag then 1 else 0)
-      (* statistic: pages the mirror's commit writes that are portion pages of the old list *)
+      (if (FreeList.fl_read_f cap b.fl).FreeList.fl_frag then 1 else 0)
+      (* pages the mirror's commit writes that are portion pages of the old list: none since the
+         repair of FreeList::push_and_encode (head_clean); reported by the [inplace] check *)
       (Stdlib.List.length
          (Stdlib.List.filter
             (fun w -> Stdlib.List.exists (fun p -> fst p = fst (fst w)) a.fl)
@@ -74,7 +78,9 @@ let check_side (store : string) (rd : coq_N -> coq_N list option) (a : side) (b 
   let l1 = line store "transition" t.FreeList.t_verdict extra in
   let l2 =
     match t.FreeList.t_verdict with
-    | None -> [ line store "written" (FreeList.written_v rd t.FreeList.t_written) "" ]
+    | None ->
+        [ line store "written" (FreeList.written_v rd t.FreeList.t_written) "";
+          line store "inplace" (FreeList.inplace_v a.fl t.FreeList.t_written) "" ]
     | Some _ -> []
   in
   [ l1 ] @ l2
